@@ -5,7 +5,7 @@
    pieces of the effective chunk size.  The ENVIRONMENT is an adversary:
    [ans] gives, for every attempt (chunk index, ordinal: false = first request for
    that chunk, true = the speculative duplicate), an arbitrary answer (transport /
-   body failure, or any status with any body), and a schedule is the list of
+   body failure, or any status, any framing, any body), and a schedule is the list of
    attempts in the order in which their results reach the result channel.  The
    time-based part of the hedge decision (len(completionTimes) >= 2 and
    now - taskStart[i] > median * multiplier) is the uninterpreted oracle [slow];
@@ -35,20 +35,29 @@ Definition chunks (cs : nat) (l : bytes) : list bytes := chunks_aux (length l) c
 Definition attempt := (nat * bool)%type.
 Definition att_eqb (a b : attempt) : bool := Nat.eqb (fst a) (fst b) && Bool.eqb (snd a) (snd b).
 
-(* [Fail]: client.Do failed or reading the body failed. *)
-Inductive answer := Fail | Resp (status : N) (body : bytes).
+(* How the end of a response body is signalled on the wire: a declared
+   Content-Length, chunked transfer encoding (a handler that flushes before it
+   writes, or writes more than net/http's 2 KiB buffer), the connection closing
+   (HTTP/1.0 style), or whatever net/http picks for an unflushed handler write.
+   The client sees resp.ContentLength = the length in the first case and -1 in
+   the others; a body that simply ENDS early is a clean EOF there, not an error. *)
+Inductive framing := Declared | Chunked | CloseDelim | Auto.
+
+(* [Fail]: client.Do failed or reading the body failed.  [Resp st fr b]: the
+   status, the framing, and the bytes io.ReadAll would deliver with a clean EOF. *)
+Inductive answer := Fail | Resp (status : N) (fr : framing) (body : bytes).
 
 (* fetchChunk after the repair: 206 and exactly the requested number of bytes *)
 Definition accept (want : nat) (a : answer) : option bytes :=
   match a with
   | Fail => None
-  | Resp st b => if (st =? 206)%N && (length b =? want) then Some b else None
+  | Resp st _ b => if (st =? 206)%N && (length b =? want) then Some b else None
   end.
 (* before the repair: 206 or 200, any body *)
 Definition accept_legacy (a : answer) : option bytes :=
   match a with
   | Fail => None
-  | Resp st b => if (st =? 206)%N || (st =? 200)%N then Some b else None
+  | Resp st _ b => if (st =? 206)%N || (st =? 200)%N then Some b else None
   end.
 
 (* ---- loop state -------------------------------------------------------- *)
@@ -211,28 +220,28 @@ Definition honest (plan : list bytes) (ans : attempt -> answer) : Prop :=
 
 (* scripted answer kinds; bodies are derived from the requested range *)
 Inductive kind :=
-  | KExact                (* 206, the range *)
-  | KShort (k : nat)      (* 206, the range minus its last k+1 bytes *)
-  | KLong (k : nat)       (* 206, the range followed by k+1 bytes 0xEE *)
-  | KWhole200             (* 200, the whole resource *)
-  | KWhole206             (* 206, the whole resource *)
-  | KStatus (code : N)    (* that status, empty body *)
-  | KFail                 (* connection dropped / body truncated *)
-  | KWrong.               (* 206, right length, every byte complemented: a lying server *)
+  | KExact (f : framing)               (* 206, the range *)
+  | KShort (f : framing) (k : nat)     (* 206, the range minus its last k+1 bytes, ended cleanly *)
+  | KLong (f : framing) (k : nat)      (* 206, the range followed by k+1 bytes 0xEE *)
+  | KWhole200 (f : framing)            (* 200, the whole resource *)
+  | KWhole206 (f : framing)            (* 206, the whole resource *)
+  | KStatus (f : framing) (code : N)   (* that status, empty body *)
+  | KFail                              (* connection dropped / declared or chunked body cut off *)
+  | KWrong (f : framing).              (* 206, right length, every byte complemented: a lying server *)
 
 Definition flip (b : N) : N := (255 - b)%N.
 
 Definition realize (res : bytes) (plan : list bytes) (i : nat) (k : kind) : answer :=
   let c := nth i plan [] in
   match k with
-  | KExact => Resp 206 c
-  | KShort j => Resp 206 (firstn (length c - 1 - j) c)
-  | KLong j => Resp 206 (c ++ repeat 238%N (S j))
-  | KWhole200 => Resp 200 res
-  | KWhole206 => Resp 206 res
-  | KStatus code => Resp code []
+  | KExact f => Resp 206 f c
+  | KShort f j => Resp 206 f (firstn (length c - 1 - j) c)
+  | KLong f j => Resp 206 f (c ++ repeat 238%N (S j))
+  | KWhole200 f => Resp 200 f res
+  | KWhole206 f => Resp 206 f res
+  | KStatus f code => Resp code f []
   | KFail => Fail
-  | KWrong => Resp 206 (map flip c)
+  | KWrong f => Resp 206 f (map flip c)
   end.
 
 Inductive head := HeadFail | HeadOk (len_known ranges : bool).
@@ -276,7 +285,7 @@ Definition hedging_of (m : mult) : bool := match m with MOff => false | _ => tru
 Definition fetch_simple (maxfetch : Z) (a : answer) : obs :=
   match a with
   | Fail => OError
-  | Resp stc b =>
+  | Resp stc _ b =>
       if (stc =? 200)%N then
         if (maxfetch <? Z.of_nat (length b))%Z then OError else OBytes b
       else OError
@@ -325,7 +334,7 @@ Definition honest_chunk_b (plan : list bytes) (i : nat) (a : answer) : bool :=
   end.
 Definition honest_simple_b (res : bytes) (a : answer) : bool :=
   match a with
-  | Resp stc b => if (stc =? 200)%N then beqb b res else true
+  | Resp stc _ b => if (stc =? 200)%N then beqb b res else true
   | Fail => true
   end.
 Definition honest_b (i : input) : bool :=
